@@ -1238,7 +1238,9 @@ FaceIter TopologyKernel::delete_face_core(FaceHandle _h) {
                                 incident_hfs_per_he_[opposite_halfedge_handle(*he_it)].end(),
                                 halfface_handle(h, 1)), incident_hfs_per_he_[opposite_halfedge_handle(*he_it)].end());
 
-            reorder_incident_halffaces(edge_handle(*he_it));
+            // reordering needs the halfface->cell incidences as well
+            if (has_face_bottom_up_incidences())
+                reorder_incident_halffaces(edge_handle(*he_it));
         }
     }
 
@@ -1381,15 +1383,18 @@ CellIter TopologyKernel::delete_cell_core(CellHandle _h) {
             if (incident_cell_per_hf_[*hf_it] == h)
                 incident_cell_per_hf_[*hf_it] = InvalidCellHandle;
         }
-        std::set<EdgeHandle> edges;
-        for(std::vector<HalfFaceHandle>::const_iterator hf_it = hfs.begin(),
-                hf_end = hfs.end(); hf_it != hf_end; ++hf_it) {
-          const auto& hf = halfface(*hf_it);
-          for (const auto&  heh : hf.halfedges())
-            edges.insert(edge_handle(heh));
+        // reordering needs the halfedge->halfface incidences as well
+        if (has_edge_bottom_up_incidences()) {
+            std::set<EdgeHandle> edges;
+            for(std::vector<HalfFaceHandle>::const_iterator hf_it = hfs.begin(),
+                    hf_end = hfs.end(); hf_it != hf_end; ++hf_it) {
+              const auto& hf = halfface(*hf_it);
+              for (const auto&  heh : hf.halfedges())
+                edges.insert(edge_handle(heh));
+            }
+            for (auto eh : edges)
+              reorder_incident_halffaces(eh);
         }
-        for (auto eh : edges)
-          reorder_incident_halffaces(eh);
     }
 
     if (deferred_deletion_enabled())
